@@ -4,6 +4,7 @@ import (
 	"fmt"
 	"go/token"
 	"go/types"
+	"reflect"
 	"sort"
 	"strings"
 
@@ -15,7 +16,7 @@ func init() {
 	register(&propertyDef{
 		id:    "C14",
 		title: "a prepared workflow can be run again and concurrently",
-		rules: []ruleFunc{c14R1, c14R2, c14R3, c14R4, c14R5, c14R6, c14R7, c14R8},
+		rules: []ruleFunc{c14R1, c14R2, c14R3, c14R4, c14R5, c14R6, c14R7, c14R8, c14R9},
 		decided: "the run path never writes prepared state: no store, map update or element store whose target belongs to an executableWorkflow, DAGItem, OneOf/OptionalExpression, Lifecycle, Workflow or runnableStep value (R1; the same detector must find the known prepare-time writers, so it cannot pass vacuously); " +
 			"every field of the per-run state is initialised from a fresh allocation, a constant, the caller's arguments or a read-only field of the prepared workflow, the DAG specifically from Clone(), and no mutating graph method is invoked on the prepared DAG (R2); the expression annotations and node data are written only by the tabled prepare functions (R3); " +
 			"(thorough) the pluginsdk schema methods used at run time do not write their receiver (R4). Shared: sub-runs of a prepared workflow get the step context itself, not one a sibling run cancels (R5 = C05.R7).",
@@ -1022,4 +1023,55 @@ func isNilGuardedReturn(ret *ssa.Return, val ssa.Value) bool {
 		b, ok := cond.(*ssa.BinOp)
 		return ok && b.Op == token.EQL && b.X == val && isNilConst(b.Y)
 	}) != nil
+}
+
+// C14.R9 what a run hands out is built for that run.
+func c14R9(c *Ctx) {
+	const rule = "C14.R9"
+	c.explain("C14.R9 resolveExpressions, which turns the prepared data of a stage input or of an output into the value a run hands out, returns its argument itself only where the argument is neither a map nor a list (both Kind tests failed on the dominating edges): containers are rebuilt for every run. The prepared data is one object shared by all runs of the prepared workflow (and by all items of a loop); a container handed out as it is can be modified by the caller of one run and is then seen by every other run")
+	fn := c.Fn("(*workflow.loopState).resolveExpressions")
+	if fn == nil || len(fn.Params) < 2 {
+		return
+	}
+	var data *ssa.Parameter
+	for _, p := range fn.Params[1:] {
+		if _, isIface := p.Type().Underlying().(*types.Interface); isIface && data == nil {
+			data = p
+		}
+	}
+	if data == nil {
+		c.unresolved("data parameter of resolveExpressions")
+		return
+	}
+	kindTest := func(kind int64) func(ssa.Value) bool {
+		return func(cond ssa.Value) bool {
+			b, ok := cond.(*ssa.BinOp)
+			if !ok || b.Op != token.EQL {
+				return false
+			}
+			k, isC := constInt(b.Y)
+			if !isC || k != kind {
+				return false
+			}
+			call, ok := b.X.(*ssa.Call)
+			return ok && strings.HasSuffix(calleeName(call.Common()), "reflect.Value).Kind")
+		}
+	}
+	n := 0
+	eachInstr(fn, func(r instrRef) {
+		ret, ok := r.I.(*ssa.Return)
+		if !ok {
+			return
+		}
+		res := retResults(ret)
+		if len(res) == 0 || res[0] != ssa.Value(data) {
+			return
+		}
+		n++
+		notSlice := guardedBy(ret, false, kindTest(int64(reflect.Slice))) != nil
+		notMap := guardedBy(ret, false, kindTest(int64(reflect.Map))) != nil
+		c.verdict(notSlice && notMap, rule, fmt.Sprintf("returns-argument#%d", n), c.instrPos(ret), "the argument is handed back only when it is neither a map nor a list",
+			fmt.Sprintf("resolveExpressions hands its argument back as it is on a path where it can be a container (not-a-list established=%v, not-a-map established=%v): the prepared data, shared by all runs, leaves the engine", notSlice, notMap))
+	})
+	c.minCount(rule, "returns of the argument itself", n, 1)
 }
